@@ -19,6 +19,7 @@ package c07
 import (
 	"context"
 	"fmt"
+	"io"
 	"sort"
 	"strings"
 	"sync"
@@ -35,13 +36,26 @@ import (
 	"github.com/tikv/pd/server/kv"
 	"github.com/tikv/pd/server/versioninfo"
 	"go.uber.org/zap"
+	"go.uber.org/zap/zapcore"
 	"pdverif/vkit"
 	"pdverif/vkit/faultkv"
 	"pgregory.net/rapid"
 )
 
+// setLog switches pd's global logger: a no-op logger, or (debug) one that encodes every entry down to the debug
+// level and throws the bytes away. The log level is configuration; formatting a log line (zap.Stringer fields are
+// evaluated when the entry is encoded) must not change what is served.
+func setLog(debug bool) {
+	if !debug {
+		log.ReplaceGlobals(zap.NewNop(), &log.ZapProperties{})
+		return
+	}
+	core := zapcore.NewCore(zapcore.NewJSONEncoder(zap.NewProductionEncoderConfig()), zapcore.AddSync(io.Discard), zapcore.DebugLevel)
+	log.ReplaceGlobals(zap.New(core), &log.ZapProperties{Core: core, Level: zap.NewAtomicLevelAt(zapcore.DebugLevel)})
+}
+
 func init() {
-	log.ReplaceGlobals(zap.NewNop(), &log.ZapProperties{})
+	setLog(false)
 	vkit.Register("cluster", vkit.N{Quick: 600, Thorough: 12000}, genCluster, runCluster)
 }
 
@@ -70,12 +84,14 @@ type ClStep struct {
 	Ops   []ClOp  `json:"ops,omitempty"`
 	St    ClStats `json:"st"`
 	Early bool    `json:"early,omitempty"`
+	Fail  bool    `json:"fail,omitempty"` // region step: the first storage write of the heartbeat(s) fails
 }
 
 type ClCase struct {
 	Stores int      `json:"stores"`
 	Init   []int    `json:"init"` // key table indices of the initial boundaries
 	Steps  []ClStep `json:"steps"`
+	Debug  bool     `json:"debug,omitempty"` // log level debug (entries encoded and discarded) instead of no logging
 }
 
 var clKinds = []string{"leader", "leader", "addpeer", "rmpeer", "promote", "pending", "pending", "size", "size", "split", "split", "merge", "merge", "dup"}
@@ -92,6 +108,7 @@ func genCluster(t *rapid.T) ClCase {
 	idx := rapid.Permutation(seq(len(keyTable))).Draw(t, "bounds")[:n]
 	sort.Ints(idx)
 	c.Init = idx
+	c.Debug = vkit.Uni(t, 3, "debugLog") == 0
 	ns := rapid.IntRange(5, 40).Draw(t, "nSteps")
 	for i := 0; i < ns; i++ {
 		var s ClStep
@@ -102,6 +119,7 @@ func genCluster(t *rapid.T) ClCase {
 			s.K = "region"
 			op := genClOp(t)
 			s.Op = &op
+			s.Fail = vkit.Uni(t, 6, "failSave") == 0
 		case 4:
 			s.K = "store"
 		case 5:
@@ -637,6 +655,11 @@ func runCluster(c ClCase) (vkit.Info, error) {
 		return info, err
 	}
 	defer f.cancel()
+	setLog(c.Debug)
+	defer setLog(false)
+	if c.Debug {
+		classes["log-level-debug"] = true
+	}
 	w, initial := newClWorld(stores, c.Init)
 	w.reportAll = vkit.Known(clKnownOverlapStores)
 	if err := f.deliver(initial); err != nil {
@@ -658,7 +681,19 @@ func runCluster(c ClCase) (vkit.Info, error) {
 			hbs := w.apply(*st.Op, 0)
 			desc = "region heartbeat(s) " + st.Op.K
 			classes["region-"+st.Op.K] = true
-			if err := f.deliver(hbs); err != nil {
+			if st.Fail {
+				// the save of the region fails: the heartbeat is still accepted (the cache is ahead of storage)
+				f.fkv.FailNth(1)
+			}
+			err := f.deliver(hbs)
+			if st.Fail {
+				if f.fkv.Writes() > 0 {
+					classes["region-save-failed"] = true
+					desc += " (its first storage write failed)"
+				}
+				f.fkv.ResetCounters()
+			}
+			if err != nil {
 				return info, fmt.Errorf("step %d: %v", i, err)
 			}
 		case "store":
